@@ -6,16 +6,16 @@ CONSTANTS
   Scalars <- MCScalars
   FillPos = {3}
   FillW = {1}
-  SetDtypes = {"i2", "i8", "f2", "f4", "f8"}
+  SetDtypes = {"f8"}
   SliceArgs <- MCSliceArgs
   MergeArgs = {2}
   TakeArgs <- MCTakeArgs
-  EdgeVals = {0}
+  EdgeVals = {2, 4, 6, 8, 10, 16}
   MinFreqs = {2}
-  MaxDepth = 3
-  MaxVal = 100000
+  MaxDepth = 2
+  MaxVal = 8
 CHECK_DEADLOCK FALSE
 INVARIANT WellFormed
-INVARIANT IntHoldsInts
+INVARIANT SliceLaws
 PROPERTY Independence
 PROPERTY RefusalIsNoOp
